@@ -40,9 +40,14 @@ else:
 				crates.add(f.split('/')[0])
 			suite = {}
 			for c in sorted(crates):
-				cmd = 'cargo test --offline -p %s %s 2>&1 | grep -E "^test result|FAILED|failed|panicked" | head -40' % (c, '--lib' if c == 'lightning' else '')
-				rc3, o3, t3 = sh(cmd)
-				suite[c] = {'out': o3[-1500:], 's': round(t3)}
+				# a few multi-threaded tests of the repository (chanmon_update_fail_tests::test_single_channel_multiple_mpp) occasionally
+				# dead-lock on a loaded machine whatever the patch: bound the run and retry once before calling it a failure
+				cmd = 'timeout -k 5 1500 cargo test --offline -p %s %s 2>&1 | grep -E "^test result|FAILED|failed|panicked" | head -40' % (c, '--lib' if c == 'lightning' else '')
+				for attempt in (1, 2):
+					rc3, o3, t3 = sh(cmd)
+					if 'test result' in o3:
+						break
+				suite[c] = {'out': o3[-1500:], 's': round(t3), 'attempts': attempt}
 			res['suite_with_patch'] = suite
 reset()
 ok = res.get('demo_without_patch', {}).get('rc') == 0 and res.get('demo_with_patch', {}).get('rc', 0) != 0
